@@ -24,6 +24,10 @@ func ResolveCell(v ssa.Value) ssa.Value {
 		}
 		s := SingleStore(a)
 		if s == nil {
+			if sv := structCellValue(a, u); sv != nil {
+				v = sv
+				continue
+			}
 			return v
 		}
 		v = s.Val
@@ -140,6 +144,15 @@ func sym(v ssa.Value, d int) string {
 		return sym(x.X, d+1) + "{" + sym(x.Index, d+1) + "}"
 	case *ssa.UnOp:
 		if x.Op == token.MUL {
+			// a field read from a local struct copy (`*t0 = r; t1 = &t0.f; *t1`, the spill of a
+			// by-value receiver or parameter): the field of the copied value
+			if fa, ok := x.X.(*ssa.FieldAddr); ok {
+				if a, ok := fa.X.(*ssa.Alloc); ok {
+					if sv := structCellValue(a, x); sv != nil {
+						return sym(sv, d+1) + "." + FieldName(fa.X.Type(), fa.Field)
+					}
+				}
+			}
 			// a load: the path of the location, marked as its content
 			return "*" + sym(x.X, d+1)
 		}
@@ -476,4 +489,84 @@ func ErrorResultIndex(sig *types.Signature) int {
 		}
 	}
 	return -1
+}
+
+// ForwardLoad sees through the store-then-load pairs go/ssa emits for a return
+// in a function whose named results live in heap cells (captured by a closure,
+// or spilled because of a defer): `*r = v; ...; t = *r; return t` with both in
+// one block and neither a call nor another store to the cell between them is v.
+func ForwardLoad(v ssa.Value) ssa.Value {
+	ld, ok := v.(*ssa.UnOp)
+	if !ok || ld.Op != token.MUL {
+		return v
+	}
+	cell, ok := ld.X.(*ssa.Alloc)
+	if !ok {
+		return v
+	}
+	b := ld.Block()
+	at := -1
+	for i, ins := range b.Instrs {
+		if ins == ssa.Instruction(ld) {
+			at = i
+		}
+	}
+	for i := at - 1; i >= 0; i-- {
+		switch x := b.Instrs[i].(type) {
+		case *ssa.Store:
+			if x.Addr == ssa.Value(cell) {
+				return x.Val
+			}
+			if _, isAlloc := x.Addr.(*ssa.Alloc); !isAlloc {
+				if _, isFA := x.Addr.(*ssa.FieldAddr); !isFA {
+					if _, isIA := x.Addr.(*ssa.IndexAddr); !isIA {
+						return v
+					}
+				}
+			}
+		case ssa.CallInstruction:
+			return v
+		}
+	}
+	return v
+}
+
+// structCellValue: cell a holds a struct that is written exactly once, as a whole, before the load at `use`,
+// and is otherwise only read field by field (never addressed, passed on or captured): the stored struct value.
+func structCellValue(a *ssa.Alloc, use *ssa.UnOp) ssa.Value {
+	if a.Referrers() == nil {
+		return nil
+	}
+	var st *ssa.Store
+	for _, r := range *a.Referrers() {
+		switch x := r.(type) {
+		case *ssa.Store:
+			if x.Addr != ssa.Value(a) || st != nil {
+				return nil
+			}
+			st = x
+		case *ssa.FieldAddr:
+			if x.Referrers() == nil {
+				continue
+			}
+			for _, r2 := range *x.Referrers() {
+				switch y := r2.(type) {
+				case *ssa.UnOp:
+					if y.Op != token.MUL {
+						return nil
+					}
+				case *ssa.DebugRef:
+				default:
+					return nil
+				}
+			}
+		case *ssa.UnOp, *ssa.DebugRef:
+		default:
+			return nil
+		}
+	}
+	if st == nil || !Before(st, use) {
+		return nil
+	}
+	return st.Val
 }
